@@ -1,4 +1,4 @@
-"""C20 -- completion proposals (clauses R20.1-R20.20)."""
+"""C20 -- completion proposals (clauses R20.1-R20.21)."""
 from __future__ import annotations
 
 import ast
@@ -24,6 +24,7 @@ EXPLANATION += " R20.16: in the anchored modules and the shared text utilities n
 EXPLANATION += " R20.18: every while loop that steps an index forward through a text compares the index with the length in its test."
 EXPLANATION += " R20.19: in the word finder an offset clamped to len(self.code) is never handed to a method that reads self.code at that offset."
 EXPLANATION += " R20.20: in the repair of an incomplete line the `pass` placeholder keeps the statement's own indentation or goes one level inside the header above it."
+EXPLANATION += " R20.21: a line number obtained by counting line breaks is incremented by one before it is handed to a function that takes line numbers."
 ASSUMPTIONS = ["proposal name is the first constructor argument"]
 
 PROPOSALS = {"CompletionProposal", "NamedParamProposal"}
@@ -403,6 +404,7 @@ def check(ctx, res) -> None:
 
     _lm(ctx, res, "R20.16", ('rope.contrib.codeassist', 'rope.contrib.fixsyntax', 'rope.contrib.findit', 'rope.base.worder', 'rope.base.evaluate'))
     _placeholder_keeps_the_depth_rule(ctx, res)
+    _line_numbers_are_one_based_rule(ctx, res)
     from .common import clamped_offset_rule as _co
 
     _co(ctx, res, "R20.19")
@@ -527,3 +529,35 @@ def _placeholder_keeps_the_depth_rule(ctx, res) -> None:
                 "or `if x:  # note`, the incomplete statement and the rest of its block become a module-level `pass` -- the function's locals with the typed prefix are not offered, or "
                 "the repaired module does not parse and code_assist raises", function=f.qualname)
     res.floor("R20.20", "stores into the placeholder's indentation", n, 2)
+
+
+def _line_numbers_are_one_based_rule(ctx, res) -> None:
+    """R20.21: rope's scopes are asked for a LINE NUMBER, counted from 1 (`get_inner_scope_for_line`, `get_line`, `logical_line_in`).  The number
+    of line breaks in front of an offset (`code.count("\\n", 0, offset)`) is the zero-based index of the line: handed on as it is, the
+    answer is the scope of the line ABOVE -- the body of a function that ends there.  In completion and definition lookup every line
+    number computed by counting line breaks is incremented by one before it reaches one of those calls."""
+    idx = ctx.idx
+    n = 0
+    SINKS = ("get_inner_scope_for_line", "get_line", "logical_line_in", "get_line_start", "get_line_end")
+    for f in sorted(idx.functions.values(), key=lambda f: f.qualname):
+        if f.unit.modname not in ("rope.contrib.fixsyntax", "rope.contrib.codeassist", "rope.contrib.findit"):
+            continue
+        counted = {}
+        for x in ast.walk(f.node):
+            if isinstance(x, ast.Assign) and len(x.targets) == 1 and isinstance(x.targets[0], ast.Name):
+                v = x.value
+                plus_one = isinstance(v, ast.BinOp) and isinstance(v.op, ast.Add) and any(isinstance(c, ast.Constant) and c.value == 1 for c in (v.left, v.right))
+                core = (v.left if not (isinstance(v.left, ast.Constant)) else v.right) if isinstance(v, ast.BinOp) and isinstance(v.op, ast.Add) else v
+                if isinstance(core, ast.Call) and call_name(core) == "count" and core.args and isinstance(core.args[0], ast.Constant) and core.args[0].value == "\n":
+                    counted[x.targets[0].id] = (x, plus_one)
+        if not counted:
+            continue
+        for c in ast.walk(f.node):
+            if isinstance(c, ast.Call) and call_name(c) in SINKS and c.args and isinstance(c.args[0], ast.Name) and c.args[0].id in counted:
+                n += 1
+                st, ok = counted[c.args[0].id]
+                res.add("R20.21", f"{f.qualname.split('.', 2)[-1]}|line-number-counts-from-one#{n}", ok, f"{f.unit.rel}:{st.lineno}",
+                        "the counted line breaks are turned into a line number (+ 1)" if ok else
+                        f"`{ast.unparse(st)}` is the zero-based index of the line and `{ast.unparse(c)[:60]}` takes a line NUMBER: the scope of the line above is answered -- with "
+                        "`def f(abc): pass` right above an unfinished `print(abc.`, go-to-definition on `abc` shows the parameter of f instead of the module's variable", function=f.qualname)
+    res.floor("R20.21", "line numbers obtained by counting line breaks", n, 1)
